@@ -1,6 +1,8 @@
-(* THE ITEM_NEXT LINK INVARIANT of the byte-exact writer model (goal K1 of the "links" slice; proofs in LinksCore /
-   LinksCore2 / LinksFsr / LinksApi / LinksTop / LinksExample).  No new model: a strengthening of the invariants of the
-   write-once simulation (WmWriteOnce*.v), whose frame forgets item_next.
+(* THE ITEM_NEXT LINK INVARIANT of the byte-exact writer model, and jls_rd_open on the writer model's file
+   (goals K1, K2, K3 of the "links" slice; proofs in LinksCore / LinksCore2 / LinksFsr / LinksApi / LinksTop (K1),
+   LinksRead / LinksOpen / LinksFold / LinksMain (K2, K3), LinksExample / LinksExample2).  No new model: K1 is a strengthening
+   of the invariants of the write-once simulation (WmWriteOnce*.v), whose frame forgets item_next; K2 / K3 are theorems about
+   RepairRaw / RepairModel / ReaderModel (jls_rd_open) run on E2eModel.e2_file.
 
    K1, COMPLETE, EVERY program p (guards as in Properties_e2e / Properties_C14_writer: no model fault, bounded log):
      in the file f = e2_file p of jls_wr_open; p; jls_wr_close, for each of the three DEFINITION LISTS
@@ -13,20 +15,45 @@
      of l, and 0 for the last one (links_K1_definition_lists_in_file).
      The same in the write-once checker's final state, together with: the newest chunk of each list is the one the writer's
      source_head / signal_head / user_data_head points to (links_K1_checker_state).
-   The per-track DATA / INDEX / SUMMARY lists are NOT covered (not needed for jls_rd_open); the track invariant only records
-   that their cached heads carry tags of none of the three lists.
+     The per-track DATA / INDEX / SUMMARY lists are NOT covered (not needed for jls_rd_open); the track invariant only records
+     that their cached heads carry tags of none of the three lists.
 
-   NOT DONE (goals K2, K3): that jls_rd_open's scans (RepairRaw.rp_scan_initial / _sources / _signals, rp_rd_chunk_end,
-   rp_scan_fsr_sample_id; ReaderModel.rdm_open) run on f produce the reader state e2_R0 of Properties_e2e, and the restatement of
-   e2e_C01_fsr_read_partial without the hypotheses rdm_open f = RdmOpened st / e2_R0.  What K2 still needs beyond this file:
-   the scans' loop lemmas over a linked list of complete chunks (each step = e2e_L1_reader_reads_complete_chunk + the link
-   given here), that every SOURCE_DEF / SIGNAL_DEF payload of the writer model parses (strings), that the chunks of the
-   signal list with chunk_meta = sid are exactly those of the accepted WSig call, the END-chunk search, and a guard that the
-   first DATA chunk of every FSR signal fits the reader's 1 MiB buffer. *)
+   K2, first half, EVERY program (links_K2_scan_phase_partial): the scan phase of jls_rd_open (jls_raw_open, scan_initial,
+     scan_sources, scan_signals following item_next, rd_chunk_end = RepairModel.rp_scan) SUCCEEDS on f, the reader stands on the
+     END chunk (so rdm_open does not ask for repair), and the signal table it has built is the fold of the reader's handlers
+     (handle_signal_def / handle_track_head, LinksRead.lk_sigs_step) over EXACTLY the chunks of the signal list, in append
+     order, each as (offset, header, payload) read off f.  Guards, decidable on a run:
+        G_bigdef   every chunk of the three definition lists fits the reader's 1 MiB buffer (ReaderModel has no realloc);
+        G_parse    the payload of every SOURCE_DEF chunk with chunk_meta < 256 parses (64 reserved bytes, five strings) - the
+                   writer model builds such payloads, but no theorem says what the PAYLOAD of each chunk of the view is;
+        rf_len f < 2^63.
+   K2, second half, class P of Properties_e2e (links_K2_opened_state_partial): rdm_open f = RdmOpened st with e2_R0 (the stored
+     definition of sid, FSR head offsets = psi(heads) = the writer's head table at close - by e2e_prog_head_offsets_partial and
+     e2e_L1_L2_model_file_partial, the TRACK_FSR_HEAD chunk the reader finds IS the writer's -, sample_id_offset = timestamp of
+     the first DATA chunk, through jls_core_scan_fsr_sample_id).  Further guards, decidable on a run:
+        G_once     the signal list read off f is A ++ tdef :: B ++ thead :: C where tdef is a SIGNAL_DEF chunk with chunk_meta
+                   sid, thead a TRACK_FSR_HEAD chunk naming sid, no chunk of A, B names sid (lk_hit) and no chunk of C is a
+                   SIGNAL_DEF of sid or a HEAD-kind chunk of track type 0 naming sid (lk_touch): i.e. "the signal id is
+                   defined once in the file".  (That tdef carries wm_signal_payload d and thead the writer's head table is
+                   PROVED: LinksDef.lk_sigdef_chunk, LinksMain.lk_head_chunk.)
+        G_others   every HEAD-kind chunk of track type 0 that names ANOTHER signal has first table entry 0 (no other FSR
+                   signal carries data: true in class P, but needs the contents of those chunks);
+        the ten fixed fields of d below 2^32 (the model's sigdef fields are unbounded N; the file stores uint32).
+     What is proved and NOT guarded: the item_next chains, that the scans visit exactly the list, the codecs, that the SIGNAL_DEF
+     payload and the head table the reader decodes are the writer's, sample_id_offset.  What the guards G_parse / G_once /
+     G_others would need to be discharged: that (tag, chunk_meta) is unique on the signal list and that every chunk of it
+     belongs to a signal of the writer's state (then G_once, G_others follow from the track invariants), and the payload of
+     every SOURCE_DEF chunk (G_parse).
+   K3 (links_C01_byte_level_end_to_end_partial): e2e_C01_fsr_read_partial with "exists st0, rdm_open f = RdmOpened st0 /\ P st0"
+     in the place of the two hypotheses about jls_rd_open; same guards as K2 second half + those of e2e_C01_fsr_read_partial.
+   Example: the guards hold for E2eExample's program (computed). *)
 From Coq Require Import NArith ZArith List Bool.
 From JLS Require Import Generated CrcDefs Spec Format WriteOnce WriteOnceProofs WmRaw WmCore WmTs WmFsr WriterModel WmProofs
-  WmWriteOnce WmWriteOnce2 WmWriteOnce3 WmWriteOnce4 RefineLog ComposeExamples E2eLog E2eNoTrunc E2eModel E2eExample
-  LinksCore LinksCore2 LinksFsr LinksApi LinksTop LinksExample.
+  WmWriteOnce WmWriteOnce2 WmWriteOnce3 WmWriteOnce4
+  BitCopyModel FsrPackModel PyramidModel PyramidProofs RefineLog RefineFsr RefinePyr RefinePyr2 RefineBits2 RefineProg
+  RepairRaw RepairModel ReaderModel ComposeFsr ComposeExamples
+  E2eLog E2eNoTrunc E2eRead E2eModel E2eFsr E2eFsr2 E2eProg E2eDisk E2eTop E2eOpen E2eMain E2eExample E2eCodec
+  LinksCore LinksCore2 LinksFsr LinksApi LinksTop LinksExample LinksRead LinksOpen LinksFold LinksMain LinksDef LinksMain2 LinksExample2.
 Import ListNotations.
 Local Open Scope N_scope.
 
@@ -101,3 +128,195 @@ Theorem links_example_links :
   fst (fst (lk_ex_next 3)) = snd (fst (lk_ex_next 3)) /\ (1 <= snd (lk_ex_next 3))%nat.
 Proof. exact lk_ex_links. Qed.
 Print Assumptions links_example_links.
+
+(* ================================================================ vocabulary of the reader-side statements *)
+Theorem links_vocabulary_reader :
+  (forall t : lk_ck, lk_ck_off t = fst (fst t) /\ lk_ck_hdr t = snd (fst t) /\ lk_ck_pay t = snd t) /\
+  (forall f t, lk_ck_ok f t <->
+     (e2_chunk_at f (lk_ck_off t) (lk_ck_hdr t) (lk_ck_pay t) /\ fm_tag (lk_ck_hdr t) <> JLS_TAG_INVALID /\
+      fm_disk_len (rf_len (lk_ck_pay t)) <= JLS_BUF_DEFAULT_SIZE /\ lk_ck_off t < rp_two63)) /\
+  (forall f t c, lk_ck_of f t c <->
+     (lk_ck_off t = rc_off c /\ e2_chunk_at f (rc_off c) (lk_ck_hdr t) (lk_ck_pay t) /\
+      fm_tag (lk_ck_hdr t) = rc_tag c /\ fm_chunk_meta (lk_ck_hdr t) = rc_meta c)) /\
+  (forall f c, lk_rl1 f c =
+     (rc_off c, fm_ch_fields (fm_sub (rc_off c) 32 f),
+      fm_sub (rc_off c + 32) (fm_payload_length (fm_ch_fields (fm_sub (rc_off c) 32 f))) f)) /\
+  (forall c1, lk_sig_handle c1 =
+     if fm_tag (wm_ck_hdr (rp_cur (rp_io_ c1))) =? JLS_TAG_SIGNAL_DEF then rp_handle_signal_def c1
+     else if N.land (fm_tag (wm_ck_hdr (rp_cur (rp_io_ c1)))) 7 =? JLS_TRACK_CHUNK_DEF then c1
+     else if N.land (fm_tag (wm_ck_hdr (rp_cur (rp_io_ c1)))) 7 =? JLS_TRACK_CHUNK_HEAD then rp_handle_track_head c1
+     else c1) /\
+  (forall sigs t, lk_sigs_step sigs t =
+     rp_sigs (lk_sig_handle
+       {| rp_io_ := {| rp_file := []; rp_flen := 0; rp_r := rp_raw0; rp_buf := lk_ck_pay t; rp_buf_len := rf_len (lk_ck_pay t);
+                       rp_cur := {| wm_ck_offset := lk_ck_off t; wm_ck_hdr := lk_ck_hdr t |}; rp_flt := 0 |};
+          rp_src_head := wm_chunk0; rp_sig_head := wm_chunk0; rp_ud_head := wm_chunk0; rp_sigs := sigs |})) /\
+  (forall sid t, lk_hit sid t =
+     if fm_tag (lk_ck_hdr t) =? JLS_TAG_SIGNAL_DEF then fm_chunk_meta (lk_ck_hdr t) =? sid
+     else (N.land (fm_tag (lk_ck_hdr t)) 7 =? JLS_TRACK_CHUNK_HEAD) && (N.land (fm_chunk_meta (lk_ck_hdr t)) CORE_SIGNAL_MASK =? sid)) /\
+  (forall sid t, lk_touch sid t =
+     if fm_tag (lk_ck_hdr t) =? JLS_TAG_SIGNAL_DEF then fm_chunk_meta (lk_ck_hdr t) =? sid
+     else (N.land (fm_tag (lk_ck_hdr t)) 7 =? JLS_TRACK_CHUNK_HEAD) && (N.land (fm_chunk_meta (lk_ck_hdr t)) CORE_SIGNAL_MASK =? sid) &&
+          (fm_tag_track_type (fm_tag (lk_ck_hdr t)) =? JLS_TRACK_TYPE_FSR)) /\
+  (forall sid t, lk_fsrhead_other sid t =
+     negb (fm_tag (lk_ck_hdr t) =? JLS_TAG_SIGNAL_DEF) && (N.land (fm_tag (lk_ck_hdr t)) 7 =? JLS_TRACK_CHUNK_HEAD) &&
+     (fm_tag_track_type (fm_tag (lk_ck_hdr t)) =? JLS_TRACK_TYPE_FSR) && negb (N.land (fm_chunk_meta (lk_ck_hdr t)) CORE_SIGNAL_MASK =? sid)).
+Proof. exact lk_vocabulary_reader. Qed.
+Print Assumptions links_vocabulary_reader.
+
+(* ================================================================ K2, first half: the scan phase of jls_rd_open, EVERY program *)
+Theorem links_K2_scan_phase_partial : forall summ1 summN p,
+  let st := fst (wm_run_full summ1 summN p) in
+  wm_st_fault st = false -> wmw_bounded (wm_st_log st) ->
+  let f := e2_file summ1 summN p in
+  let cs := rf_chunks (wm_st_log st) in
+  rf_len f < rp_two63 ->
+  e2t_bigb (filter (fun c => negb (lk_key (rc_tag c) =? 0)) cs) = true ->
+  forallb (fun c => (JLS_SOURCE_COUNT <=? rc_meta c) || (rp_source_parse (rc_pay c) =? 0))
+          (filter (fun c => lk_key (rc_tag c) =? 1) cs) = true ->
+  let R2 := map (lk_rl1 f) (filter (fun c => lk_key (rc_tag c) =? 2) cs) in
+  exists c, rp_scan f = inr c /\ e2_rdr (rp_io_ c) f /\ fm_tag (wm_ck_hdr (rp_cur (rp_io_ c))) = JLS_TAG_END /\
+     Forall2 (lk_ck_of f) R2 (filter (fun c => lk_key (rc_tag c) =? 2) cs) /\ Forall (lk_ck_ok f) R2 /\
+     rp_sigs c = fold_left lk_sigs_step R2 (map rp_sig0 rp_signal_ids).
+Proof. exact lk_scan_file_det. Qed.
+Print Assumptions links_K2_scan_phase_partial.
+
+(* reader side, ANY signal table and list: the entry of sid after the fold over a list of the shape A ++ def :: B ++ head :: C *)
+Theorem links_K2_fold_at_signal : forall sid d A tdef B thead C,
+  sid < 256 ->
+  Forall (fun t => lk_hit sid t = false) A -> Forall (fun t => lk_hit sid t = false) B -> Forall (fun t => lk_touch sid t = false) C ->
+  fm_tag (lk_ck_hdr tdef) = JLS_TAG_SIGNAL_DEF -> fm_chunk_meta (lk_ck_hdr tdef) = sid -> lk_ck_pay tdef = wm_signal_payload d ->
+  lk_ck_off tdef <> 0 ->
+  fm_tag (lk_ck_hdr thead) = JLS_TAG_TRACK_FSR_HEAD -> N.land (fm_chunk_meta (lk_ck_hdr thead)) CORE_SIGNAL_MASK = sid ->
+  rf_len (lk_ck_pay thead) = SIZEOF_track_head ->
+  sg_src d < 256 -> sg_type d = JLS_SIGNAL_TYPE_FSR -> wm_dt_valid (sg_dtype d) = true ->
+  sg_dtype d < 4294967296 -> sg_rate d < 4294967296 -> sg_spd d < 4294967296 -> sg_sdf d < 4294967296 -> sg_eps d < 4294967296 ->
+  sg_sumdf d < 4294967296 -> sg_adf d < 4294967296 -> sg_udf d < 4294967296 ->
+  wm_str_fits (sg_name d) = true -> wm_str_fits (sg_units d) = true ->
+  lk_Q (lk_ent (fold_left lk_sigs_step (A ++ tdef :: B ++ thead :: C) (map rp_sig0 rp_signal_ids)) sid)
+       sid (lk_ck_off tdef) (lk_rd_def sid d) 0%Z (lk_head_entry thead (wm_track0 0)).
+Proof. exact lk_fold_pattern. Qed.
+Print Assumptions links_K2_fold_at_signal.
+
+(* ================================================================ K2, second half: the opened state, class P *)
+Theorem links_K2_opened_state_partial : forall (summ1 : N -> list N -> wm_sentry) (summN : bool -> list wm_sentry -> wm_sentry)
+    (d0 d : sigdef) (pos0 : Z) (p1 p2 : list wop) (stf : py_wr),
+  (0 < pos0)%Z -> sg_id d <> 0 -> sg_type d = JLS_SIGNAL_TYPE_FSR -> sg_eps d * sg_sdf d < 4294967296 ->
+  let sid := sg_id d in
+  let w := dt_bits (sg_dtype d) in
+  let pd := rf_pd d in
+  let p := p1 ++ WSig d0 :: p2 in
+  Forall (rp_ok sid) p ->
+  Forall (fun o => match o with WSig d' => sg_id d' <> sid | _ => True end) p1 ->
+  snd (wm_api_signal_def (fst (wm_steps summ1 summN wm_api_open p1 [])) d0) = 0 -> wm_sig_align d0 = Some d ->
+  let ops := rp_proj sid p2 in
+  py_srun pd (w <=? 8) (rf_t0 ops) pos0 (rf_script d rf_bs0 ops) = PyOk stf ->
+  wm_fill_sample (sg_dtype d) = fill_value (sg_dtype d) ->
+  let g := fold_left (fun g c => fsr_write g (fst c) (snd c)) (rf_calls ops) (new_sig d) in
+  rd_length g <> 0 ->
+  let stF := fst (wm_run_full summ1 summN p) in
+  wmw_bounded (wm_st_log stF) ->
+  let f := e2_file summ1 summN p in
+  let cs := filter (rf_mine d) (rf_chunks (wm_st_log stF)) in
+  e2t_adjb cs = true -> e2t_bigb cs = true ->
+  rf_len f < rp_two63 -> sg_spd d < 4294967296 ->
+  (- e2_tsb <= rf_t0 ops)%Z /\ (rf_t0 ops + Z.of_N (rd_length g) + Z.of_N (sg_spd d) <= e2_tsb)%Z ->
+  (forall k, (1 <= k)%nat -> nth k (pw_heads stf) 0%Z <> 0%Z -> (py_step pd k < rdm_two63)%Z) ->
+  let psi := rf_psi (map rc_off cs) pos0 in
+  (* the guards of the definition lists *)
+  let csA := rf_chunks (wm_st_log stF) in
+  e2t_bigb (filter (fun c => negb (lk_key (rc_tag c) =? 0)) csA) = true ->
+  forallb (fun c => (JLS_SOURCE_COUNT <=? rc_meta c) || (rp_source_parse (rc_pay c) =? 0))
+          (filter (fun c => lk_key (rc_tag c) =? 1) csA) = true ->
+  sg_dtype d < 4294967296 -> sg_rate d < 4294967296 -> sg_sdf d < 4294967296 -> sg_eps d < 4294967296 ->
+  sg_sumdf d < 4294967296 -> sg_adf d < 4294967296 -> sg_udf d < 4294967296 ->
+  let R2 := map (lk_rl1 f) (filter (fun c => lk_key (rc_tag c) =? 2) csA) in
+  (exists A tdef B thead C, R2 = A ++ tdef :: B ++ thead :: C /\
+     Forall (fun t => lk_hit sid t = false) A /\ Forall (fun t => lk_hit sid t = false) B /\ Forall (fun t => lk_touch sid t = false) C /\
+     fm_tag (lk_ck_hdr tdef) = JLS_TAG_SIGNAL_DEF /\ fm_chunk_meta (lk_ck_hdr tdef) = sid /\
+     fm_tag (lk_ck_hdr thead) = JLS_TAG_TRACK_FSR_HEAD /\ N.land (fm_chunk_meta (lk_ck_hdr thead)) CORE_SIGNAL_MASK = sid) ->
+  Forall (fun t => lk_fsrhead_other sid t = true -> fm_dec_u64 (lk_ck_pay t) = 0) R2 ->
+  exists st, rdm_open f = RdmOpened st /\ e2_R0 f d (pw_heads stf) psi (rf_t0 ops) st.
+Proof. exact lk_open_R0_v2. Qed.
+Print Assumptions links_K2_opened_state_partial.
+
+(* ================================================================ K3 *)
+Theorem links_C01_byte_level_end_to_end_partial : forall (summ1 : N -> list N -> wm_sentry) (summN : bool -> list wm_sentry -> wm_sentry)
+    (d0 d : sigdef) (pos0 : Z) (p1 p2 : list wop) (stf : py_wr),
+  (0 < pos0)%Z -> sg_id d <> 0 -> sg_type d = JLS_SIGNAL_TYPE_FSR -> sg_eps d * sg_sdf d < 4294967296 ->
+  let sid := sg_id d in
+  let w := dt_bits (sg_dtype d) in
+  let pd := rf_pd d in
+  let p := p1 ++ WSig d0 :: p2 in
+  Forall (rp_ok sid) p ->
+  Forall (fun o => match o with WSig d' => sg_id d' <> sid | _ => True end) p1 ->
+  snd (wm_api_signal_def (fst (wm_steps summ1 summN wm_api_open p1 [])) d0) = 0 -> wm_sig_align d0 = Some d ->
+  let ops := rp_proj sid p2 in
+  py_srun pd (w <=? 8) (rf_t0 ops) pos0 (rf_script d rf_bs0 ops) = PyOk stf ->
+  wm_fill_sample (sg_dtype d) = fill_value (sg_dtype d) ->
+  8 < w -> cmp_no_omit ops ->
+  let g := fold_left (fun g c => fsr_write g (fst c) (snd c)) (rf_calls ops) (new_sig d) in
+  rd_length g <> 0 ->
+  let stF := fst (wm_run_full summ1 summN p) in
+  wmw_bounded (wm_st_log stF) ->
+  let f := e2_file summ1 summN p in
+  let cs := filter (rf_mine d) (rf_chunks (wm_st_log stF)) in
+  e2t_adjb cs = true -> e2t_bigb cs = true ->
+  rf_len f < rp_two63 -> sg_spd d < 4294967296 ->
+  (- e2_tsb <= rf_t0 ops)%Z /\ (rf_t0 ops + Z.of_N (rd_length g) + Z.of_N (sg_spd d) <= e2_tsb)%Z ->
+  (forall k, (1 <= k)%nat -> nth k (pw_heads stf) 0%Z <> 0%Z -> (py_step pd k < rdm_two63)%Z) ->
+  let psi := rf_psi (map rc_off cs) pos0 in
+  let csA := rf_chunks (wm_st_log stF) in
+  e2t_bigb (filter (fun c => negb (lk_key (rc_tag c) =? 0)) csA) = true ->
+  forallb (fun c => (JLS_SOURCE_COUNT <=? rc_meta c) || (rp_source_parse (rc_pay c) =? 0))
+          (filter (fun c => lk_key (rc_tag c) =? 1) csA) = true ->
+  sg_dtype d < 4294967296 -> sg_rate d < 4294967296 -> sg_sdf d < 4294967296 -> sg_eps d < 4294967296 ->
+  sg_sumdf d < 4294967296 -> sg_adf d < 4294967296 -> sg_udf d < 4294967296 ->
+  let R2 := map (lk_rl1 f) (filter (fun c => lk_key (rc_tag c) =? 2) csA) in
+  (exists A tdef B thead C, R2 = A ++ tdef :: B ++ thead :: C /\
+     Forall (fun t => lk_hit sid t = false) A /\ Forall (fun t => lk_hit sid t = false) B /\ Forall (fun t => lk_touch sid t = false) C /\
+     fm_tag (lk_ck_hdr tdef) = JLS_TAG_SIGNAL_DEF /\ fm_chunk_meta (lk_ck_hdr tdef) = sid /\
+     fm_tag (lk_ck_hdr thead) = JLS_TAG_TRACK_FSR_HEAD /\ N.land (fm_chunk_meta (lk_ck_hdr thead)) CORE_SIGNAL_MASK = sid) ->
+  Forall (fun t => lk_fsrhead_other sid t = true -> fm_dec_u64 (lk_ck_pay t) = 0) R2 ->
+  let P := e2_P f d (pw_disk stf) (pw_heads stf) psi (rf_t0 ops) (Z.of_N (rd_length g)) in
+  wm_st_fault stF = false /\
+  exists st0, rdm_open f = RdmOpened st0 /\ P st0 /\
+  forall st, P st ->
+    (exists st', rdm_fsr_length st sid = (st', 0, Z.of_N (rd_length g)) /\ P st' /\
+                 rdm_stale st' = rdm_stale st /\ rdm_flt st' = rdm_flt st) /\
+    forall recon f32_of_f64 start len dst,
+      (0 <= start)%Z -> (0 < len)%Z -> (start + len <= Z.of_N (rd_length g))%Z -> Z.to_N len * w <= 8 * N.of_nat (length dst) ->
+      exists st' pcs out,
+        rdm_fsr recon f32_of_f64 st sid start len dst = (st', 0, out, pcs) /\ P st' /\
+        rdm_stale st' = rdm_stale st /\ rdm_flt st' = rdm_flt st /\ length out = length dst /\
+        firstn (N.to_nat (Z.to_N len * w)) (bc_bits out) =
+          flat_map (bits_of (N.to_nat w)) (firstn (Z.to_nat len) (skipn (Z.to_nat start) (ss_samples g))) /\
+        skipn (N.to_nat (Z.to_N len * w)) (bc_bits out) = skipn (N.to_nat (Z.to_N len * w)) (bc_bits dst) /\
+        (dst = repeat 0 (N.to_nat ((Z.to_N len * w + 7) / 8)) -> rd_window g (Z.to_N start) (Z.to_N len) = Some out).
+Proof. exact lk_C01_byte_level_v2. Qed.
+Print Assumptions links_C01_byte_level_end_to_end_partial.
+
+(* ================================================================ example: the new guards hold for E2eExample's program (the others: e2e_example_hypotheses) *)
+Theorem links_example_K3_guards :
+  let p := cx_p1 ++ WSig cx_sig :: cx_p2 in
+  let csA := rf_chunks (wm_st_log (fst (wm_run_full wm_zero_summ1 wm_zero_summN p))) in
+  let sid := sg_id cx_d in
+  e2t_bigb (filter (fun c => negb (lk_key (rc_tag c) =? 0)) csA) = true /\
+  forallb (fun c => (JLS_SOURCE_COUNT <=? rc_meta c) || (rp_source_parse (rc_pay c) =? 0))
+          (filter (fun c => lk_key (rc_tag c) =? 1) csA) = true /\
+  sg_dtype cx_d < 4294967296 /\ sg_rate cx_d < 4294967296 /\ sg_sdf cx_d < 4294967296 /\ sg_eps cx_d < 4294967296 /\
+  sg_sumdf cx_d < 4294967296 /\ sg_adf cx_d < 4294967296 /\ sg_udf cx_d < 4294967296 /\
+  (exists A tdef B thead C, lk_ex_R2 = A ++ tdef :: B ++ thead :: C /\
+     Forall (fun t => lk_hit sid t = false) A /\ Forall (fun t => lk_hit sid t = false) B /\ Forall (fun t => lk_touch sid t = false) C /\
+     fm_tag (lk_ck_hdr tdef) = JLS_TAG_SIGNAL_DEF /\ fm_chunk_meta (lk_ck_hdr tdef) = sid /\
+     fm_tag (lk_ck_hdr thead) = JLS_TAG_TRACK_FSR_HEAD /\ N.land (fm_chunk_meta (lk_ck_hdr thead)) CORE_SIGNAL_MASK = sid) /\
+  Forall (fun t => lk_fsrhead_other sid t = true -> fm_dec_u64 (lk_ck_pay t) = 0) lk_ex_R2.
+Proof. exact lk_ex_guards_v2. Qed.
+Print Assumptions links_example_K3_guards.
+
+Theorem links_example_vocabulary_R2 : lk_ex_R2 =
+  let p := cx_p1 ++ WSig cx_sig :: cx_p2 in
+  let f := e2_file wm_zero_summ1 wm_zero_summN p in
+  map (lk_rl1 f) (filter (fun c => lk_key (rc_tag c) =? 2) (rf_chunks (wm_st_log (fst (wm_run_full wm_zero_summ1 wm_zero_summN p))))).
+Proof. exact lk_ex_R2_eq. Qed.
+Print Assumptions links_example_vocabulary_R2.
